@@ -211,5 +211,5 @@ func runs(xs []string) string {
 	if len(parts) == 1 {
 		return "(" + parts[0] + ")"
 	}
-	return "(" + strings.Join(parts, " ++ ") + ")"
+	return "(" + strings.Join(parts, " ++ ") + ")%list"
 }
